@@ -6,11 +6,15 @@ import os
 import shutil
 
 ROOT = os.path.dirname(os.path.dirname(os.path.abspath(__file__)))
-for d in sorted(glob.glob("/tmp/seed/C*/out/[AB]")):
+import sys
+RND = sys.argv[1] if len(sys.argv) > 1 else ""
+SRC = "/tmp/seed" + RND
+RES = "/tmp/mt_results" + RND
+for d in sorted(glob.glob(SRC + "/C*/out/[AB]")):
     pid = d.split("/")[3]
     v = d.split("/")[5]
     res = {}
-    for f in [f"/tmp/mt_results/{pid}_{v}.json", f"/tmp/mt_results/{pid}_{v}2.json"]:
+    for f in [f"{RES}/{pid}_{v}.json", f"{RES}/{pid}_{v}2.json"]:
         if os.path.exists(f) and os.path.getsize(f) > 0:
             r = json.load(open(f))
             for k in ("demo_passes_unchanged", "patch_applies", "demo_fails_with_patch", "suite_passes_with_patch", "suite_with_patch"):
@@ -23,7 +27,7 @@ for d in sorted(glob.glob("/tmp/seed/C*/out/[AB]")):
     if not ok:
         print("NOT CONFIRMED", pid, v, {k: res.get(k) for k in ("demo_passes_unchanged", "patch_applies", "demo_fails_with_patch", "suite_passes_with_patch")})
         continue
-    out = os.path.join(ROOT, "seeded", f"{pid}-{v}")
+    out = os.path.join(ROOT, "seeded", f"{pid}-{RND}{v}")
     os.makedirs(out, exist_ok=True)
     shutil.copy(f"{d}/patch.diff", out)
     shutil.copy(f"{d}/demo.rs", out)
